@@ -410,6 +410,19 @@ pub fn step(s: &State, op: Op, cfg: &JudgeCfg) -> StepResult {
         }
     }
 
+    // ---- C13: a clone and its original evolve independently --------------------------
+    if cfg.target & C13 != 0 && obs::debug_hash(&s.arena) != s.dbg {
+        fails.push(mk(
+            C13,
+            "clone",
+            false,
+            &op,
+            class,
+            "call-on-a-clone-changed-the-original",
+            format!("after the call on a clone the original reads {:?}", s.arena),
+        ));
+    }
+
     // ---- observe ---------------------------------------------------------------
     let obs1 = match ops::guarded(|| obs::observe(&arena)) {
         Ok(o) => o,
